@@ -17,7 +17,19 @@ UNIT = Unit(
         Fn(SM, "new", impl="SmtMapping", mode="assume", wrap=SMT_WRAP, **smt_new()),
         Fn(SM, "insert", impl="SmtMapping", mode="assume", wrap=SMT_WRAP, **smt_insert()),
         Fn(SM, "root_hash", impl="SmtMapping", mode="assume", wrap=SMT_WRAP, **smt_root_hash()),
-        Fn(S, "tip908_transactions", impl="UnsealedState", mode="assume", **st_tip908_transactions()),
+        Fn(S, "tip908_transactions", impl="UnsealedState", home="C07", implicit_props=("C09", "C07", "C03"), **st_tip908_transactions(),
+           rewrites=[("PIPE",), ("SUB", "vv.sort_unstable();", "sort_unstable_bytes(&mut vv);"),
+                     ("SUB", "for tx in self.transactions.iter() {", """let __txs = self.transactions.iter(); let ghost m = self.transactions@;
+        let ghost ks = choose|ks: Seq<TxHash>| is_enum(m, ks) && __txs@.len() == ks.len() && (forall|i: int| 0 <= i < ks.len() ==> *(#[trigger] __txs@[i]) == m[ks[i]]);
+        for tx in __txs {""")],
+           injects=[Inject(("before", "vv.push(complex);"), "let ghost lf = complex@; proof { assert(lf =~= leaf_of(*tx)); }"),
+                    Inject(("before", "sort_unstable_bytes(&mut vv);"), """let ghost lv = vecs_view(vv@);
+                        proof { lemma_leaves(m, ks, lv); }"""),
+                    Inject(("after_stmt", "sort_unstable_bytes(&mut vv);"), "proof { assert(seq_iset(vecs_view(vv@)) == leaf_iset(m)); }")],
+           loops=[Loop(0, binder="it", body_entry="let ghost vv0 = vv@; proof { assert(*tx == m[ks[it.index@ as int]]); assert(vecs_view(vv0).len() == it.index@); assert(vv0.len() == it.index@); }",
+                       body_exit="proof { let n = it.index@ as int; assert(vv@.len() == n + 1); assert(vecs_view(vv@)[n] == lf); assert forall|j: int| 0 <= j < n implies vecs_view(vv@)[j] == leaf_of(m[ks[j]]) by { assert(vecs_view(vv@)[j] == vv@[j]@); assert(vv@[j] == vv0[j]); assert(vecs_view(vv0)[j] == vv0[j]@); } assert(vecs_view(vv@) =~= Seq::new((n + 1) as nat, |j: int| leaf_of(m[ks[j]]))); }",
+                       invariants=[C("enum", "is_enum(m, ks) && m == self.transactions@ && it.seq().len() == ks.len() && (forall|i: int| 0 <= i < ks.len() ==> *(#[trigger] it.seq()[i]) == m[ks[i]])", "C07"),
+                                   C("leaves", "vecs_view(vv@) == Seq::new(it.index@ as nat, |j: int| leaf_of(m[ks[j]]))", "C07")])]),
         Fn(S, "transactions_root_hash", impl="UnsealedState", home="C07", implicit_props=("C09", "C07", "C03"),
            **st_txroot(),
            rewrites=[("SUB", "db.get_tree(Default::default())", "db.get_tree(zero_root())"),
